@@ -859,6 +859,9 @@ namespace chaiscript {
               IntSuffix_();
               auto match = Position::str(start, m_position);
               if (!match.empty() && (match[0] == '0')) {
+                if (match.find_first_of("89") != std::string_view::npos) {
+                  throw exception::eval_error("Invalid digit in octal literal", File_Position(start.line, start.col), *m_filename);
+                }
                 auto bv = buildInt(8, match, false);
                 m_match_stack.push_back(make_node<eval::Constant_AST_Node<Tracer>>(match, start.line, start.col, std::move(bv)));
               } else if (!match.empty()) {
